@@ -8,14 +8,14 @@ DESC = {
  "m4-C03": ("b2 reader demands a host in the primary URL", "primary URL that is absolute without authority (urn:, file:///)", "primary-URL shapes added (K16)"),
  "m4-C04": ("b1 writer skips a nil primary URL instead of failing", "b1 bundle without primary URL", "the case was excluded from MC_Bundle (the pinned writer panics on it); now included, with a panic on a bundle that must be refused counted as refusal (K16)"),
  "m4-C05": ("variant key-count cap checked after the multiplication loop", "variants-value with >= 63 two-valued axes (product wraps) and no locations", "`manyaxes` mutation added (K16)"),
- "m4-C06": ("first signer's chain adopted without copying", "the same chain object signs a second bundle that then gets a second signer", "one chain object per signer, a 3-certificate chain, and re-verification of the previous bundle after the next one is signed (K16)"),
+ "m4-C06": ("first signer's chain adopted without copying", "the same chain object signs a second bundle that then gets a second signer", "missed twice: (1) the harness copied the bundle before every signer, which severs exactly the sharing at fault - histories now also sign in place, with one chain object per signer, a 3-certificate chain, and re-verification of the previous bundle after the next is signed; (2) the judge derived its expectation from the (by then corrupted) authorities - honest histories now require every vouched subset to point at the certificate recorded inside the signing algorithm (K16)"),
  "m4-C07": ("sign-bundle integrity-block opens its output without O_TRUNC", "output path already holds a longer file", "the C07 check now also drives the command-line path, every output path pre-filled (K16)"),
  "m4-C08": ("signed message assembled in a pooled buffer that is returned before it is used", "another sign/verify between building the message and signing it", "a signature held in flight (gated algorithm, one scheduler thread) while another exchange is signed (K16)"),
  "m4-C09": ("lifetime computed in int64 (wraps)", "date hugely negative so that expires - date >= 2^63", "signed timestamps: `SLifetimeOk` / `SInWindow` and six scenarios (K16)"),
  "m4-C10": ("IsCacheable indexes its status table without bound check", "b3, validly signed, status 502..511 without freshness information", "valid signed exchanges over every status added to the totality harness (C09 caught it before)"),
  "m4-C11": ("duplicate-key check with bytes.EqualFold", "two distinct keys equal under case folding", "case-pair keys added to MC_CborEnc and the generator (K16)"),
- "m4-C12": ("text validated per 32 KiB block", "multi-byte character across a 32768-byte offset", "long texts made of multi-byte characters added (K16)"),
- "m4-C13": ("argument bytes read by a slice expression bounded by cap, not len", "truncated integer head in a slice with spare capacity", "every input is also judged as prefix of a larger buffer; differing verdicts are `unstable` (K16)"),
+ "m4-C12": ("text validated per 32 KiB block", "multi-byte character across a 32768-byte offset", "long texts made of multi-byte characters added (K16); the demonstration needs `-tags verif` (tools/seed_eval.py now passes it)"),
+ "m4-C13": ("argument bytes read by a slice expression bounded by cap, not len", "truncated integer head in a slice with spare capacity", "missed at first: my loose-slice probe ran after the exact call inside the same recover, so the (legitimate) panic of the exact call ended the probe; each call now has its own recover. Every input is also judged as prefix of a larger buffer; differing verdicts are `unstable` (K16)"),
  "m4-C14": ("decoder gains WriteTo that forgets the undelivered tail of the current record", "Read of a few bytes, then io.Copy", "`copy` / `sniffcopy` consumers and the Drain rule of Trace_Mice (K16)"),
  "m4-C15": ("digest header parsed as a list; no matching element yields a nil proof = 'all records done'", "digest header whose token is not the encoding's", ""),
  "m4-C16": ("label validation moved to the list serialiser only", "ParameterisedIdentifier.String() called directly with a malformed label", "the single-identifier entry point and more malformed labels added (K16)"),
